@@ -121,7 +121,8 @@ def gen(rng: Any, prop: str, tier: str) -> dict[str, Any]:
             ref = name if sc == "S1" and home and rng.random() < 0.5 else f"{db}.{sc}.{name}"
             if ref == name and sc != _cur_schema(ops, sid):
                 ref = f"{db}.{sc}.{name}"
-            sql = f"CREATE {'OR REPLACE ' if replace else ''}TABLE {ref} ({coldefs})" + (f" COMMENT = '{comment}'" if comment else "")
+            transient = "TRANSIENT " if rng.random() < 0.2 else ""  # a table property that is not a comment
+            sql = f"CREATE {'OR REPLACE ' if replace else ''}{transient}TABLE {ref} ({coldefs})" + (f" COMMENT = '{comment}'" if comment else "")
             ops.append({"s": sid, "k": "exec", "sql": sql, "ddl": "create_table", "fq": list(fq), "cols": cols, "comment": comment})
             tables[fq] = {"cols": cols, "comment": comment}
             last_cols[fq] = cols
